@@ -267,6 +267,21 @@ fn edge_alphabet() -> Vec<Op> {
     a
 }
 
+/// Names that share their *leading* labels and differ in a middle or the last
+/// label, written right around offset 0x4000: a prior name that starts inside
+/// the 14-bit pointer range but whose later labels lie beyond it must still be
+/// compared label by label (added after seeded change C12r2 was missed).
+fn straddle_alphabet() -> Vec<Op> {
+    let mut a: Vec<Op> = (16338..=16361).map(|l| rr(0, own("a."), t::TXT, IN, 60, rd_txt(l), false)).collect();
+    for o in ["a.b.a.", "a.b.c.", "a.c.a.", "x.b.a.", "A.b.C.", "host.example.test.", "host.example.invalid.", "host.other.test."] {
+        a.push(rr(0, own(o), t::A, IN, 60, vec![10, 0, 0, 1], false));
+    }
+    a.push(rr(0, own("a.b.a."), t::NS, IN, 60, rd_name("a.b.c."), true));
+    a.push(rr(0, own("host.example.test."), t::CNAME, IN, 60, rd_name("host.example.invalid."), false));
+    a.push(Op::SetMode(Mode::CasePreserving));
+    a
+}
+
 /// Families are listed cheapest first so that a wall-clock cap (overloaded
 /// machine) cuts into the largest family only.
 pub fn families(prop: crate::explore::Prop, quick: bool) -> Vec<Family> {
@@ -296,6 +311,13 @@ pub fn families(prop: crate::explore::Prop, quick: bool) -> Vec<Family> {
                 name: "pointer-range-edge",
                 what: "a TXT record of every length 16338..=16361 followed by names: name fields start at every offset around 0x3fff, the end of the 14-bit pointer range",
                 alphabet: edge_alphabet(),
+                configs: vec![whole()],
+                depth: d(3, 4),
+            },
+            Family {
+                name: "straddle-0x4000",
+                what: "a TXT record of every length 16338..=16361 followed by owners / RDATA names that share leading labels and differ in a later label, so that a prior name straddles the end of the 14-bit pointer range",
+                alphabet: straddle_alphabet(),
                 configs: vec![whole()],
                 depth: d(3, 4),
             },
@@ -335,6 +357,13 @@ pub fn families(prop: crate::explore::Prop, quick: bool) -> Vec<Family> {
                 name: "pointer-range-edge",
                 what: "a TXT record of every length 16338..=16361 followed by names: name fields start at every offset around 0x3fff, the end of the 14-bit pointer range",
                 alphabet: edge_alphabet(),
+                configs: vec![whole()],
+                depth: d(3, 4),
+            },
+            Family {
+                name: "straddle-0x4000",
+                what: "a TXT record of every length 16338..=16361 followed by owners / RDATA names that share leading labels and differ in a later label, so that a prior name straddles the end of the 14-bit pointer range",
+                alphabet: straddle_alphabet(),
                 configs: vec![whole()],
                 depth: d(3, 4),
             },
